@@ -150,6 +150,9 @@ func threadRun(L *LState) {
 				lv = LString(fmt.Sprint(rcv))
 			}
 			if parent := L.Parent; parent != nil {
+				// the thread is dead and its registers are about to be cleared: closures that
+				// escaped from it keep the values of the locals they captured
+				L.closeUpvalues(0)
 				if L.wrapped {
 					// the error leaves through the wrap function: the coroutine is dead and
 					// its resumer is the running thread again (luaB_auxwrap also prefixes a
